@@ -44,7 +44,6 @@ TECH = {
  "C34": ("history + executable model: exhaustive and random histories of generated keyed-list helpers called by reflection", "6.C34"),
 }
 LEVEL = {k: "exploration" for k in TECH}
-LEVEL.update({"C26": "translation_validation", "C27": "translation_validation"})
 checks = []
 for pid in sorted(TECH):
     tech, ref = TECH[pid]
